@@ -90,6 +90,7 @@ package dt
 //@   ensures others: forall m: List :: m != l && old(wf(m)) ==> wf(m) && m.elems == old(m.elems)
 //@   ensures wf(l)
 //@   ensures nonempty: len(old(l.elems)) > 0 ==> result == old(l.elems[0]) && result.list == nil && l.elems == old(l.elems)[1:]
+//@   ensures detached: forall e: Element :: old(allocated(e)) && old(e.list) != l ==> e.list == old(e.list)
 //@   ensures empty: len(old(l.elems)) == 0 ==> fresh(result) && !result.ok && len(l.elems) == 0
 
 //@ func (*List).PopBack
@@ -100,6 +101,7 @@ package dt
 //@   ensures others: forall m: List :: m != l && old(wf(m)) ==> wf(m) && m.elems == old(m.elems)
 //@   ensures wf(l)
 //@   ensures nonempty: len(old(l.elems)) > 0 ==> result == old(l.elems[len(l.elems) - 1]) && result.list == nil && l.elems == old(l.elems)[:len(old(l.elems)) - 1]
+//@   ensures detached: forall e: Element :: old(allocated(e)) && old(e.list) != l ==> e.list == old(e.list)
 //@   ensures empty: len(old(l.elems)) == 0 ==> fresh(result) && !result.ok && len(l.elems) == 0
 
 //@ func (*List).Front
@@ -360,3 +362,41 @@ package dt
 //@   modifies cell(current)
 //@   ensures more: old(pos(l, current)) < len(l.elems) ==> result1 == nil && current == l.elems[old(pos(l, current))] && result0 == current.item
 //@   ensures end: old(pos(l, current)) >= len(l.elems) ==> result1 == io_EOF && current == l.root
+
+// ---------------------------------------------------------------------------
+// SortQuick (C17, C18): the elements are unlinked into a slice, the slice is
+// sorted by sort.SliceStable (trusted model: stable sorted permutation, with
+// ghost witnesses sortperm / sortinv) and the elements are linked back in
+// slice order. Element identity and the items are untouched (the Set's hash
+// index keeps pointing at the right elements).
+// ---------------------------------------------------------------------------
+
+//@ func (*List).SortQuick$1
+//@   props C17 C18
+//@   requires 0 <= i && i < len(elems) && 0 <= j && j < len(elems) && lt != nil
+//@   requires forall k: int :: 0 <= k && k < len(elems) ==> elems[k] != nil
+//@   ensures less: result == apply(lt, elems[i].item, elems[j].item)
+
+//@ func (*List).SortQuick
+//@   props C17 C18
+//@   requires l != nil && wf(l) && lt != nil
+//@   modifies l.root, List.length, Element.list, Element.next, Element.prev, List.elems, List.lastIns, Element.idx
+//@   ensures wf(l) && len(l.elems) == len(old(l.elems))
+//@   ensures perm: forall k: int :: 0 <= k && k < len(l.elems) ==> 0 <= sortperm(k) && sortperm(k) < len(l.elems) && l.elems[k] == old(l.elems)[sortperm(k)]
+//@   ensures bij: forall k: int :: 0 <= k && k < len(l.elems) ==> 0 <= sortinv(k) && sortinv(k) < len(l.elems) && sortperm(sortinv(k)) == k && sortinv(sortperm(k)) == k
+//@   ensures sorted: forall p: int, q: int :: 0 <= p && p < q && q < len(l.elems) ==> !apply(lt, cast(l.elems[q], "*Element").item, cast(l.elems[p], "*Element").item)
+//@   ensures stable: forall p: int, q: int :: 0 <= p && p < q && q < len(l.elems) && !apply(lt, cast(l.elems[p], "*Element").item, cast(l.elems[q], "*Element").item) ==> sortperm(p) < sortperm(q)
+//@   ensures others: forall m: List :: m != l && old(wf(m)) ==> wf(m) && m.elems == old(m.elems)
+//@   loop 1 invariant wf(l)
+//@   loop 1 invariant len(elems) + len(l.elems) == len(old(l.elems))
+//@   loop 1 invariant l.elems == old(l.elems)[len(elems):] && fresh(backing(elems))
+//@   loop 1 invariant forall k: int :: 0 <= k && k < len(elems) ==> elems[k] == old(l.elems)[k] && elems[k] != nil && allocated(elems[k]) && elems[k].list == nil && elems[k].ok
+//@   loop 1 invariant forall a: int, b: int :: withmtrig(elems[a], elems[b], 0 <= a && a < b && b < len(elems) ==> elems[a] != elems[b])
+//@   loop 1 invariant forall m: List :: m != l && old(wf(m)) ==> wf(m) && m.elems == old(m.elems)
+//@   loop 1 decreases len(l.elems)
+//@   loop 2 invariant wf(l)
+//@   loop 2 invariant 0 - 1 <= rangeindex && rangeindex < len(elems) && len(l.elems) == rangeindex + 1 && len(elems) == len(old(l.elems))
+//@   loop 2 invariant forall k: int :: 0 <= k && k <= rangeindex ==> l.elems[k] == elems[k]
+//@   loop 2 invariant forall k: int :: rangeindex < k && k < len(elems) ==> elems[k] != nil && allocated(elems[k]) && elems[k].list == nil && elems[k].ok
+//@   loop 2 invariant forall a: int, b: int :: withmtrig(elems[a], elems[b], 0 <= a && a < b && b < len(elems) ==> elems[a] != elems[b])
+//@   loop 2 invariant forall m: List :: m != l && old(wf(m)) ==> wf(m) && m.elems == old(m.elems)
